@@ -71,6 +71,36 @@ class Rx:
     def ignorecase(self):
         return bool(self.flags & re.I)
 
+    def contains_group(self, sub, name):
+        """Does the sub-pattern contain a group originally named `name`?"""
+        hit = []
+
+        def rec(sp):
+            for op, av in sp:
+                if op is sre_c.SUBPATTERN:
+                    gi, _a, _d, inner = av
+                    if gi is not None and self.orig(
+                            self.index2name.get(gi, '')) == name:
+                        hit.append(1)
+                    rec(inner)
+                elif op in (sre_c.MAX_REPEAT, sre_c.MIN_REPEAT,
+                            getattr(sre_c, 'POSSESSIVE_REPEAT', None)):
+                    rec(av[2])
+                elif op is sre_c.BRANCH:
+                    for b in av[1]:
+                        rec(b)
+                elif op in (sre_c.ASSERT, sre_c.ASSERT_NOT):
+                    rec(av[1])
+                elif op is getattr(sre_c, 'ATOMIC_GROUP', None):
+                    rec(av)
+                elif op is sre_c.GROUPREF_EXISTS:
+                    rec(av[1])
+                    if av[2]:
+                        rec(av[2])
+
+        rec(sub)
+        return bool(hit)
+
 
 def normalise(pattern):
     """Make a `regex`-module pattern acceptable to re._parser:
